@@ -778,6 +778,17 @@ class DataFrameSchema(Generic[TDataObject], BaseSchema):
                 f"Keys {already_in_columns} already found in schema columns!"
             )
 
+        # ensure that no two columns are given the same new name: the later
+        # one would silently replace the earlier one
+        new_names = list(rename_dict.values())
+        repeated = [
+            x for x in dict.fromkeys(new_names) if new_names.count(x) > 1
+        ]
+        if repeated:
+            raise errors.SchemaInitError(
+                f"Keys {repeated} are the new name of more than one column!"
+            )
+
         # We iterate over the existing columns dict and replace those keys
         # that exist in the rename_dict
 
